@@ -80,7 +80,7 @@ def system_subcheck(name, prof, monitor_factory, nontrivial, classes=None, n=Non
             "budget_hit": res.budget_hit,
             "events": res.n_events,
             "nontrivial": bool(nontrivial(a, spec, res)),
-            "classes": (classes(a, spec, res) if classes else []),
+            "classes": (classes(a, spec, res) if classes else []) + ["excluded:" + x for x in spec.get("_excluded", [])],
             "pairs": list(itertools.combinations(feats, 2)),
             "score": (score(a, spec, res) if score else a.get("events", 0)),
         }
